@@ -105,7 +105,10 @@ func SuperTriangle(points []vector2.Float64) []vector2.Float64 {
 	}
 
 	height := max.Y() - min.Y()
-	min = vector2.New(min.X(), min.Y()-2)
+	// the margin below the points has to scale with the points: a fixed margin
+	// leaves the apex (20 heights above the base) below the top of any point
+	// set less than ~0.1 high
+	min = vector2.New(min.X(), min.Y()-(height*2))
 
 	xMiddle := (min.X() + max.X()) / 2.
 	width := max.X() - min.X()
